@@ -39,7 +39,7 @@ VALID_COUNTS = dict(ref.N_PARAMS)
 def faults():
     out = []
     # 1. m != 1
-    for where in ('surface', 'trcl', 'fill', 'unused'):
+    for where in ('surface', 'trcl', 'fill', 'unused', 'trcl-inline', 'fill-inline'):
         for mval in ('sym', -1):
             out.append(('m', where, mval))
         out.append(('m', where, -1, 'star'))      # *TR card: angles in degrees, then m
@@ -108,6 +108,15 @@ def inject(f):
             d.surfs[0].tr = 5
         elif where == 'trcl':
             d.cells[0].trcl = 5
+        elif where == 'trcl-inline':
+            # the 13 entries given in place on the cell card
+            d.cells[0].trcl, d.cells[0].trclstar = list(d.trs[5][0]), d.trs[5][1]
+            del d.trs[5]
+        elif where == 'fill-inline':
+            d.cells[0].fill = 4
+            d.cells[0].filltr, d.cells[0].fillstar = list(d.trs[5][0]), d.trs[5][1]
+            del d.trs[5]
+            d.cells.insert(1, dk.Cell(9, ('or', ('s', -2), ('s', 2)), imp=1, u=4))
         elif where == 'fill':
             d.cells[0].fill = 4
             d.cells[0].filltr = 5
